@@ -96,17 +96,36 @@ func libVal(b []byte, asDB bool) efivar.Marshallable {
 	return rawVal(b)
 }
 
+// keepSink is a caller's decoder that keeps what it is handed instead of copying it (the buffer passed to Unmarshal is
+// the decoder's from then on: on the tree every read hands over a buffer of its own). What it kept must stay what it was.
+type keepSink struct {
+	Kept []byte // aliases the buffer's memory
+	Copy []byte
+}
+
+func (s *keepSink) Unmarshal(b *bytes.Buffer) error {
+	s.Kept = b.Bytes()
+	s.Copy = append([]byte(nil), s.Kept...)
+	return nil
+}
+
 // rawSink is the harness's own Unmarshallable. It records whether and with
 // what it was called.
 type rawSink struct {
 	Called int
 	Got    []byte
 	Fail   error
+	// Keep: besides the copy in Got, the decoder keeps the memory it was handed (Kept aliases it)
+	Keep bool
+	Kept []byte
 }
 
 func (s *rawSink) Unmarshal(b *bytes.Buffer) error {
 	s.Called++
 	s.Got = append([]byte(nil), b.Bytes()...)
+	if s.Keep {
+		s.Kept = b.Bytes()
+	}
 	return s.Fail
 }
 
